@@ -16,7 +16,7 @@ from ..cfg import CFG, forward
 from ..kinds import has_call, reach
 from ..model import AnalysisError, unparse
 from ..report import RuleResult
-from ._c07_flow import MaskedCells
+from ._c07_flow import ChildMasks, MaskedCells, ShrinkGuard
 from ._c07_util import (KEEP_ORDER, KEEP_SET, call_arg, dependence_leaves, derived_names, desugar_setattr, enclosing_ifs, falls_off, fname, is_setattr,
                         literal_resolver, name_defs, reach3, real_defs, tv3, unfold_filtered_loops, unfold_generator_loops, unknown_leaves, xp, xt)
 
@@ -383,7 +383,7 @@ def rule_len(ctx) -> RuleResult:
 
 
 ORDER_INSENSITIVE_CALLS = {"np.delete", "np.max", "np.min", "np.array", "np.asarray", "np.unique", "np.sort", "len", "isinstance", "np.any", "np.all",
-                           "np.atleast_1d", "np.ravel", "np.r_"}
+                           "np.atleast_1d", "np.ravel", "np.r_", "np.size", "np.shape", "np.ndim"}
 ORDER_INSENSITIVE_ATTRS = {"max", "min", "any", "all", "size", "shape", "dtype", "ndim"}  # the method / attribute forms of the above
 
 
@@ -661,4 +661,320 @@ def rule_renum(ctx) -> RuleResult:
     return res
 
 
-RULES = [rule_pair, rule_order, rule_len, rule_maskonly, rule_count, rule_renum, rule_fresh]
+REDUCTIONS = {"np.max", "np.min", "np.amax", "np.amin", "np.argmax", "np.argmin", "np.nanmax", "np.nanmin", "numpy.max", "numpy.min", "max", "min"}
+REDUCTION_METHODS = {"max", "min", "argmax", "argmin", "ptp"}
+
+
+def _empty_set_reductions(fn):
+    """The reductions without identity (np.max / np.min / .max() ... without `initial=`) applied to the removal indices that
+    can be EVALUATED when the index set is empty: not behind a size test that an empty set fails (`X.size > 0 and ...`,
+    `if X.size == 0: return`, `np.size(X)`; decided on the paths, short-circuit order included)."""
+    node = fn.node
+    idx = fn.params[1]
+    names, same = derived_names(node, idx, KEEP_SET)
+
+    def size_of(e):
+        e = xp(e, node)
+        if isinstance(e, ast.Attribute) and e.attr == "size" and same(e.value):
+            return True
+        return isinstance(e, ast.Call) and fname(e) in ("np.size", "numpy.size") and len(e.args) == 1 and same(e.args[0])
+
+    def atom(e):
+        if size_of(e):
+            return False  # 0 is falsy
+        if isinstance(e, ast.Compare) and len(e.ops) == 1:
+            a, b, op = e.left, e.comparators[0], type(e.ops[0])
+            flip = {ast.Lt: ast.Gt, ast.LtE: ast.GtE, ast.Gt: ast.Lt, ast.GtE: ast.LtE, ast.Eq: ast.Eq, ast.NotEq: ast.NotEq}
+            if size_of(b) and op in flip:
+                a, b, op = b, a, flip[op]
+            if size_of(a) and isinstance(b, ast.Constant) and isinstance(b.value, (int, float)) and not isinstance(b.value, bool) and op in flip:
+                return {ast.Lt: 0 < b.value, ast.LtE: 0 <= b.value, ast.Gt: 0 > b.value, ast.GtE: 0 >= b.value, ast.Eq: 0 == b.value, ast.NotEq: 0 != b.value}[op]
+        return None
+
+    ev = lambda t: tv3(xp(t, node) if isinstance(t, ast.Name) else t, atom)  # noqa: E731
+
+    def evaluated(root, target):
+        """may `target` (a sub-expression of root) be evaluated when root is, the index set being empty?"""
+        if root is target:
+            return True
+        if isinstance(root, ast.BoolOp):
+            for v in root.values:
+                if any(x is target for x in ast.walk(v)):
+                    return evaluated(v, target)
+                t = ev(v)
+                if (isinstance(root.op, ast.And) and t is False) or (isinstance(root.op, ast.Or) and t is True):
+                    return False
+            return False
+        if isinstance(root, ast.IfExp):
+            t = ev(root.test)
+            if any(x is target for x in ast.walk(root.test)):
+                return evaluated(root.test, target)
+            branch = root.body if any(x is target for x in ast.walk(root.body)) else root.orelse
+            if (branch is root.body and t is False) or (branch is root.orelse and t is True):
+                return False
+            return evaluated(branch, target)
+        for c in ast.iter_child_nodes(root):
+            if any(x is target for x in ast.walk(c)):
+                return evaluated(c, target)
+        return False
+
+    g = CFG(node)
+    seen = reach3(g, [g.entry], ev)
+    out = []
+    for n in seen:
+        if n.ast is None or isinstance(n.ast, list) or n.kind == "with":
+            continue
+        for c in ast.walk(n.ast):
+            if not isinstance(c, ast.Call) or any(k.arg == "initial" for k in c.keywords):
+                continue
+            red = None
+            if fname(c) in REDUCTIONS and len(c.args) == 1 and same(c.args[0]):
+                red = fname(c)
+            elif isinstance(c.func, ast.Attribute) and c.func.attr in REDUCTION_METHODS and same(c.func.value):
+                red = "." + c.func.attr + "()"
+            if red and evaluated(n.ast, c):
+                out.append((red, c.lineno))
+    return sorted(set(out))
+
+
+def rule_empty(ctx) -> RuleResult:
+    res = RuleResult(
+        "C07.EMPTY",
+        "C07",
+        "a removal method that another removal method calls AFTER it has rewritten the geometry, with a selection it computed "
+        "itself (e.g. the cells touching the removed vertices — none when the vertices are used by no cell), accepts the empty "
+        "selection: it applies no reduction without identity (np.max / np.min ...) to its indices unless a size test keeps the "
+        "empty set away from it — otherwise the outer removal fails half-way, geometry trimmed and cells not renumbered",
+        floor=0,  # an obligation only where one removal method calls another after a store
+    )
+    p = ctx.p
+    targets = _targets(p)
+    removal_names = {f.name for f in targets}
+    for fn0 in targets:
+        fn = _norm(ctx, fn0)
+        g = CFG(fn.node)
+        _, own_indices = derived_names(fn.node, fn.params[1], KEEP_SET)
+        stores = [n for n in g.nodes if n.kind == "stmt" and isinstance(n.ast, ast.Assign) and any(
+            isinstance(t, ast.Attribute) and unparse(t.value) == "self" and t.attr.lstrip("_") in ASSOC for t in n.ast.targets)]
+        # ... or hands the rewriting to another removal method (super().remove_vertices(...), self.remove_cells(...))
+        stores += [n for n in g.nodes if n.ast is not None and not isinstance(n.ast, list) and n.kind != "with" and any(
+            isinstance(c, ast.Call) and isinstance(c.func, ast.Attribute) and c.func.attr in removal_names and unparse(c.func.value) in ("self", "super()")
+            for c in ast.walk(n.ast))]
+        after = set()
+        for s_ in stores:
+            after |= reach(g, [m for m, _ in s_.succ])
+        for n in after:
+            if n.ast is None or isinstance(n.ast, list) or n.kind == "with":
+                continue
+            for c in ast.walk(n.ast):
+                if not (isinstance(c, ast.Call) and isinstance(c.func, ast.Attribute) and c.func.attr in removal_names
+                        and unparse(c.func.value) in ("self", "super()")):
+                    continue
+                arg = call_arg(c, 0, "indices")
+                if arg is None or own_indices(arg):
+                    continue  # the caller's own request, already examined by the caller
+                callees = [t for t in targets if t.name == c.func.attr and (t.cls is fn0.cls or t.cls in fn0.cls.mro or fn0.cls in t.cls.mro)]
+                for callee in callees:
+                    bad = _empty_set_reductions(_norm(ctx, callee))
+                    ok = not bad
+                    res.inst(f"{fn.qualname}:{c.lineno} calls {callee.qualname} with a computed selection after the geometry store; "
+                             f"reductions reached by an empty selection: {[r for r, _ in bad]}", nontrivial=True, ok=ok)
+                    if not ok:
+                        res.find(fn.cls.name, fn.name, f"{callee.qualname} is called after the geometry store with a computed selection and applies "
+                                 f"{bad[0][0]} to it without a guard for the empty set", f"{callee.module.relpath}:{bad[0][1]}",
+                                 f"{fn.qualname} has already rewritten the geometry and trimmed the data when it calls {callee.qualname} with the "
+                                 f"elements it selected; when that selection is empty (e.g. the removed vertices are used by no cell) "
+                                 f"{bad[0][0]} of an empty array raises: the operation fails half-way, the remaining steps (renumbering of the "
+                                 f"cells) never run and geometry and cells are left inconsistent on file")
+    return res
+
+
+def rule_cacheguard(ctx) -> RuleResult:
+    res = RuleResult(
+        "C07.CACHEGUARD",
+        "C07",
+        "a vertices / cells setter that refuses an array with fewer rows than the stored geometry (shrinking goes through "
+        "remove_vertices / remove_cells, which trim the data) refuses it as well while the private cache is not loaded (an "
+        "object that was just opened): the stored row count it compares with comes from a loading read, not from the bare cache",
+        floor=1,
+    )
+    p = ctx.p
+    seen = set()
+    for K in p.subclasses(p.cls("Points")):
+        for geom in ASSOC:
+            pr = K.props.get(geom)
+            fn0 = pr.setter if pr is not None else None
+            if fn0 is None or id(fn0.node) in seen or len(fn0.params) < 2:
+                continue
+            seen.add(id(fn0.node))
+            sg = ShrinkGuard(ctx.view(fn0), geom)
+            if not sg.stores_new() or sg.store_reached(loaded=True):
+                continue  # this setter does not refuse a shorter array at all: nothing to keep consistent
+            ok = not sg.store_reached(loaded=False)
+            res.inst(f"{K.name}.{geom} setter: a shorter array is refused whether or not self._{geom} is loaded", nontrivial=True, ok=ok)
+            if not ok:
+                res.find(K.name, geom, f"the refusal of a shorter `{geom}` array is skipped while self._{geom} is not loaded", fn0.where,
+                         f"on an object that was just opened self._{geom} is None until the first read: the 'fewer values' test is skipped, "
+                         f"the shorter geometry is stored and written, and the {ASSOC[geom]}-associated data keep their old length "
+                         f"(they no longer have one entry per element; reading them fails the length check)")
+    return res
+
+
+def _length_reconcilers(ctx, classes, depth=3):
+    """{function node id}: the methods that put an array argument against self.n_values: they compare the argument's length
+    with it themselves, or hand the argument (on every path where it is not None) to a method that does."""
+    fns = {}
+    for K in classes:
+        for f in K.methods.values():
+            if len(f.params) >= 2 and f.kind == "method":
+                fns[id(f.node)] = f
+
+    def own_compare(f):
+        v = ctx.view(f)
+        for c in ast.walk(v.node):
+            if isinstance(c, ast.Compare) and len(c.ops) == 1 and not isinstance(c.ops[0], (ast.Is, ast.IsNot, ast.In, ast.NotIn)):
+                sides = [xt(c.left, v.node), xt(c.comparators[0], v.node)]
+                if any("n_values" in t for t in sides) and any(
+                        any(f"len({q})" in t or f"{q}.shape" in t or f"{q}.size" in t for q in f.params[1:]) for t in sides):
+                    return True
+        return False
+
+    good = {k for k, f in fns.items() if own_compare(f)}
+    for _ in range(depth):
+        names = {fns[k].name for k in good}
+        for k, f in fns.items():
+            if k in good:
+                continue
+            v = ctx.view(f)
+            arg = f.params[1]
+            g = CFG(v.node)
+            hands_over = lambda n: has_call(n, lambda c: isinstance(c.func, ast.Attribute) and unparse(c.func.value) == "self" and c.func.attr in names  # noqa: E731
+                                            and any(isinstance(x, ast.Name) and x.id == arg for a in c.args for x in ast.walk(a)))
+            if any(hands_over(n) for n in g.nodes) and g.exit not in reach(g, [g.entry], var=arg, facts={"notnone:" + arg: True}, avoid=hands_over):
+                # resolved by name within the data classes: every implementation of that name must reconcile
+                if all(kk in good for kk, ff in fns.items() if ff.name in {c.func.attr for n in g.nodes if n.ast is not None and not isinstance(n.ast, list)
+                                                                               for c in ast.walk(n.ast) if isinstance(c, ast.Call) and isinstance(c.func, ast.Attribute)
+                                                                               and c.func.attr in names} and not _abstract(ff)):
+                    good.add(k)
+    return good, {fns[k].name for k in good}
+
+
+def _abstract(f) -> bool:
+    return any(unparse(d).endswith("abstractmethod") for d in f.node.decorator_list)
+
+
+def rule_lenkind(ctx) -> RuleResult:
+    res = RuleResult(
+        "C07.LENKIND",
+        "C07",
+        "every kind of data whose `values` setter admits an array (it tests for np.ndarray and stores it) puts the array against "
+        "the expected count before storing it: on every path on which an array reaches `self._values` its length was compared "
+        "with self.n_values (directly or through a method that does, as NumericData.format_values -> format_length): no data "
+        "kind stores a vertex / cell array of another length than the geometry",
+        floor=2,
+    )
+    p = ctx.p
+    classes = p.subclasses(p.cls("Data"))
+    good, good_names = _length_reconcilers(ctx, classes)
+    seen = set()
+    for K in classes:
+        pr = K.props.get("values")
+        fn0 = pr.setter if pr is not None else None
+        if fn0 is None or id(fn0.node) in seen or len(fn0.params) < 2:
+            continue
+        seen.add(id(fn0.node))
+        fn = ctx.view(fn0)
+        v = fn.params[1]
+        g = CFG(fn.node)
+        array_kinds = {"ndarray"}
+
+        def atom(e, node=fn.node, v=v):
+            # scenario: the argument is an np.ndarray, the expected count is known, the association is not OBJECT
+            e = xp(e, node)
+            if isinstance(e, ast.Call) and fname(e) == "isinstance" and len(e.args) == 2 and unparse(e.args[0]) == v:
+                names = [unparse(x).split(".")[-1] for x in (e.args[1].elts if isinstance(e.args[1], ast.Tuple) else [e.args[1]])]
+                return True if any(nm in array_kinds for nm in names) else (False if all(nm.isidentifier() or nm == "type(None)" for nm in names) else None)
+            if isinstance(e, ast.Compare) and len(e.ops) == 1 and isinstance(e.ops[0], (ast.Is, ast.IsNot, ast.Eq, ast.NotEq)):
+                pos = isinstance(e.ops[0], (ast.Is, ast.Eq))
+                a, b = unparse(e.left), unparse(e.comparators[0])
+                for x, y in ((a, b), (b, a)):
+                    if y == "None" and x in (v, "self.n_values"):
+                        return not pos
+                    if x == "self.association" and y.endswith(".OBJECT"):
+                        return not pos
+            return None
+
+        ev = lambda t: tv3(t, atom)  # noqa: E731
+        stores = [n for n in g.nodes if n.kind == "stmt" and isinstance(n.ast, ast.Assign) and any(unparse(t) == "self._values" for t in n.ast.targets)
+                  and any(isinstance(x, ast.Name) and x.id == v for x in ast.walk(xp(n.ast.value, fn.node)))]
+        seen_nodes = reach3(g, [g.entry], ev)
+        stores = [n for n in stores if n in seen_nodes]
+        admits = any(isinstance(c, ast.Call) and fname(c) == "isinstance" and len(c.args) == 2 and unparse(c.args[0]) == v and "ndarray" in unparse(c.args[1])
+                     for n in g.nodes if n.ast is not None and not isinstance(n.ast, list) and n.kind != "with" for c in ast.walk(n.ast))
+        if not stores or not admits:
+            continue
+        pinned = K.lookup("_association")
+        if pinned is not None and pinned[1] == "assign" and unparse(pinned[2]).endswith(".OBJECT"):
+            continue  # a kind that is object-associated by construction (one value, whatever the geometry)
+
+        def reconciles(n):
+            if n.ast is None or isinstance(n.ast, list):
+                return False
+            for c in ast.walk(n.ast):
+                if isinstance(c, ast.Call) and isinstance(c.func, ast.Attribute) and unparse(c.func.value) == "self" and c.func.attr in good_names \
+                        and any(isinstance(x, ast.Name) and x.id == v for a in c.args for x in ast.walk(xp(a, fn.node))):
+                    return True
+                if isinstance(c, ast.Compare) and "n_values" in xt(c, fn.node) and any(
+                        f"len({v})" in xt(c, fn.node) or f"{v}.shape" in xt(c, fn.node) or f"{v}.size" in xt(c, fn.node) for _ in (0,)):
+                    return True
+            return False
+
+        unchecked = [s_ for s_ in stores if not reconciles(s_) and s_ in reach3(g, [g.entry], ev, avoid=lambda n, s_=s_: n is not s_ and reconciles(n))]
+        ok = not unchecked
+        res.inst(f"{K.name}.values setter: an array is compared with n_values before it is stored", nontrivial=True, ok=ok)
+        if not ok:
+            res.find(K.name, "values", "an array is stored without its length being compared with n_values", fn0.where,
+                     f"{K.name}.values accepts arrays but never looks at the number of vertices / cells of the parent: a longer array is "
+                     f"not refused and a shorter one is not padded; the stored (and written) array does not have one entry per element")
+    return res
+
+
+def rule_childmask(ctx) -> RuleResult:
+    res = RuleResult(
+        "C07.CHILDMASK",
+        "C07",
+        "in the masked copy of a cell object every data child is copied with the mask of ITS OWN association, decided within "
+        "the iteration that copies it: a VERTEX child with the vertex mask, a CELL child with the cell mask, any other child "
+        "with none — whatever children were copied before it (the value of the `mask=` argument of <child>.copy never "
+        "originates in an earlier iteration's choice)",
+        floor=3,
+    )
+    p = ctx.p
+    data_bases = {"Data"} | {c if isinstance(c, str) else c.name for c in p.cls("Data").mro}
+    seen = set()
+    what = {"VERTEX": "the vertex mask", "CELL": "the cell mask", "OTHER": "no mask"}
+    for K in p.subclasses(p.cls("ObjectBase")):
+        fn0 = K.methods.get("copy")
+        if fn0 is None or id(fn0.node) in seen:
+            continue
+        seen.add(id(fn0.node))
+        names = fn0.params + [a.arg for a in fn0.node.args.kwonlyargs]
+        if "mask" not in names or "cell_mask" not in names:
+            continue
+        cm = ChildMasks(ctx.view(fn0), data_bases)
+        for call, line, assoc, got, allowed in cm.run():
+            ok = got <= allowed
+            kind = {"VERTEX": "VERTEX", "CELL": "CELL", "OTHER": "other"}[assoc]
+            res.inst(f"{K.name}.copy:{line} a {kind}-associated child is copied with {what[assoc]} on every path", nontrivial=True, ok=ok)
+            if not ok:
+                stale = sorted(x.split(":")[0] for x in got - allowed)
+                res.find(K.name, "copy", f"a {kind}-associated data child can be copied with another mask than {what[assoc]}", f"{fn0.module.relpath}:{line}",
+                         f"the mask handed to the copy of a {kind}-associated child is not decided for that child on every path: it can "
+                         f"still hold what was chosen before the loop or for an earlier child (origins: {stale}); the child's values are "
+                         f"selected with the wrong mask (wrong entries kept, or the copy aborts half-way on the shape check)")
+    if not res.instances and "copy" in p.cls("CellObject").methods:
+        raise AnalysisError("CellObject.copy: no `<child>.copy(..., mask=...)` in a loop over the children found")
+    return res
+
+
+RULES = [rule_pair, rule_order, rule_len, rule_maskonly, rule_count, rule_renum, rule_fresh, rule_childmask, rule_empty, rule_cacheguard, rule_lenkind]
